@@ -70,6 +70,10 @@ pub fn oracle(p: &SoftStopPlan, o: &MuxOutcome) -> Vec<Violation> {
             }
             // the request was fully sent? otherwise the client itself was stopped by the closing connection
             let fully_sent = st.map_or(false, |s| s.sent_end_wire);
+            // a request the client was still writing when the connection went away, that never reached a backend and
+            // never got a byte of answer, had not been taken on by sozu (its header block may not even have been
+            // complete): not a request "in flight on the old worker"
+            if !fully_sent && !obs.answered && backend_obs(&o.backends[0], r.id).seen == 0 { continue; }
             let (want_len, want_status) = resp_of(r.id);
             let ok = obs.answered && obs.sim_id == Some(r.id) && obs.status == Some(want_status) && obs.complete && obs.first_bad.is_none() && obs.body_len == want_len;
             if !ok {
